@@ -121,6 +121,7 @@ def cases(rng, tier):
 SPEC = {
     'lean': ['C16'],
     'cases': cases,
+    'big': True,
     'stream': 'C16 codec stream',
     'rule': 'integers: widths {1,2,3,4,8,16} (quick) / 1…16 × {unspecified, big, little} × {signed, unsigned} × {range '
             'ends, ends ± 1, 0, ±1, random in and just outside range}: encoding vs an independent two\'s-complement oracle, '
